@@ -250,3 +250,22 @@ def selftest():
                     v = decode(nm, p)
                     if not (isinstance(v, float) and math.isnan(v)):
                         assert encode(nm, v, n) == p, (nm, n, p)
+
+
+@st.composite
+def float_between_st(draw, n):
+    """a double that struct can pack into an n-bit (16/32) float but that is not (in general) exactly representable there: a point between two
+    neighbouring representable values - rounding midpoints, midpoint +- a little, just above the largest finite value"""
+    import struct as _struct
+    r = decode('float', draw(pattern(n)))
+    if math.isnan(r) or math.isinf(r):
+        r = 65504.0 if n == 16 else float.fromhex('0x1.fffffep+127')
+    p, min_exp = (11, -24) if n == 16 else (24, -149)
+    ulp = 2.0 ** max(math.frexp(abs(r))[1] - p, min_exp) if r else 2.0 ** min_exp
+    frac = draw(st.sampled_from([0.5, 0.25, 0.75, 0.5 - 2.0 ** -20, 0.5 + 2.0 ** -20, 0.999, 0.001, 1 - 2.0 ** -30, 0.4999, 2.0 ** -25]))
+    v = r + math.copysign(ulp * frac, r if r else draw(st.sampled_from([1.0, -1.0])))
+    try:
+        _struct.pack('>e' if n == 16 else '>f', v)
+    except (OverflowError, _struct.error):
+        return r
+    return v
